@@ -1,6 +1,7 @@
 (* C01, the flat fragment, end to end inside Coq.
 
-   For patterns made of literal characters, escaped characters, `?` and `*` (no brackets, no groups), fnmatch mode,
+   For patterns made of literal characters, escaped characters, `?`, `*` and simple bracket expressions `[abc]` / `[!abc]`
+   over plain members (no ranges, classes, escapes, set operators; no groups), fnmatch mode,
    Unix rules, DOTMATCH on or off:
      (1) the parser model's output is, character for character, the printed form of a regular expression [emit ts]
          built from the token list by a three-line function;
@@ -22,6 +23,7 @@ Inductive re : Type :=
 | Chr (c : ch)                 (* a literal character, printed re.escape()d *)
 | Any                          (* `.` under (?s) *)
 | SetOf (l : list ch)          (* `[...]` of plain characters *)
+| NSetOf (l : list ch)         (* `[^...]` *)
 | StarLazy (r : re)            (* r*? *)
 | NLook (r : re)               (* (?!r) *)
 | PLook (r : re).              (* (?=r) *)
@@ -31,6 +33,7 @@ Fixpoint print1 (r : re) : str :=
   | Chr c => re_escape_ch c
   | Any => S_ "."
   | SetOf l => S_ "[" ++ l ++ S_ "]"
+  | NSetOf l => S_ "[^" ++ l ++ S_ "]"
   | StarLazy r => print1 r ++ S_ "*?"
   | NLook r => S_ "(?!" ++ print1 r ++ S_ ")"
   | PLook r => S_ "(?=" ++ print1 r ++ S_ ")"
@@ -47,6 +50,7 @@ Fixpoint M (r : re) (s rest : str) : Prop :=
   | Chr c => s = [c]
   | Any => exists x, s = [x]
   | SetOf l => exists x, s = [x] /\ In x l
+  | NSetOf l => exists x, s = [x] /\ ~ In x l
   | StarLazy a => star (M a) s rest
   | NLook a => s = [] /\ ~ (exists s' t, rest = s' ++ t /\ M a s' t)
   | PLook a => s = [] /\ (exists s' t, rest = s' ++ t /\ M a s' t)
@@ -60,16 +64,21 @@ Fixpoint Mseq (rs : list re) (s rest : str) : Prop :=
   end.
 
 (* ---- flat patterns ---- *)
-Inductive tok := TLit (c : ch) | TEsc (c : ch) | TQ | TStar.
+Inductive tok := TLit (c : ch) | TEsc (c : ch) | TQ | TStar | TBr (neg : bool) (l : list ch).
 
 Definition unparse1 (t : tok) : str :=
-  match t with TLit c => [c] | TEsc c => [92; c] | TQ => [63] | TStar => [42] end.
+  match t with
+  | TLit c => [c] | TEsc c => [92; c] | TQ => [63] | TStar => [42]
+  | TBr neg l => [91] ++ (if neg then [33] else []) ++ l ++ [93]
+  end.
 Definition unparse (ts : list tok) : str := flat_map unparse1 ts.
 
 (* characters a TLit may carry: anything that is not one of the four active symbols of this fragment *)
 Definition plain (c : ch) : bool := negb (ch_in c [42; 63; 91; 92]).
 (* characters a TEsc may carry: not `/`, `.`, `\` handled separately by _references; kept to the common case *)
 Definition escapable (c : ch) : bool := negb (ch_in c [47; 46]).
+(* set members that are simply themselves inside a bracket *)
+Definition setplain (c : ch) : bool := negb (ch_in c [93; 45; 91; 92; 47; 33; 94; 38; 124; 126]).
 
 Fixpoint wf (ts : list tok) : bool :=
   match ts with
@@ -78,6 +87,7 @@ Fixpoint wf (ts : list tok) : bool :=
   | TEsc c :: r => escapable c && wf r
   | TQ :: r => wf r
   | TStar :: r => match r with TStar :: _ => false | _ => wf r end
+  | TBr neg l :: r => forallb setplain l && negb (match l with [] => true | _ => false end) && wf r
   end.
 
 Definition lit_re (c : ch) : re := if c =? 47 then SetOf [47] else Chr c.
@@ -91,6 +101,7 @@ Fixpoint emit (dot first : bool) (ts : list tok) : list re :=
   | TQ :: r => (if first && negb dot then [NLook (SetOf [46])] else []) ++ Any :: emit dot false r
   | TStar :: r => (if first then [PLook Any] else []) ++ (if first && negb dot then [NLook (SetOf [46])] else []) ++
                   StarLazy Any :: emit dot false r
+  | TBr neg l :: r => (if first && negb dot then [NLook (SetOf [46])] else []) ++ (if neg then NSetOf l else SetOf l) :: emit dot false r
   end.
 
 (* ---- the documented meaning ---- *)
@@ -102,6 +113,8 @@ Fixpoint Den (dot first : bool) (ts : list tok) (n : str) : Prop :=
   | TQ :: r => exists x n', n = x :: n' /\ (first = true -> dot = false -> x <> 46) /\ Den dot false r n'
   | TStar :: r => exists s n', n = s ++ n' /\ (first = true -> n <> []) /\
                                (first = true -> dot = false -> forall y, n <> 46 :: y) /\ Den dot false r n'
+  | TBr neg l :: r => exists x n', n = x :: n' /\ (if neg then ~ In x l else In x l) /\
+                                   (first = true -> dot = false -> x <> 46) /\ Den dot false r n'
   end.
 
 (* ---- (2) semantics of the emitted regex = documented meaning ---- *)
@@ -132,12 +145,32 @@ Proof.
   - reflexivity.
 Qed.
 
+(* the leading-dot guard in front of a one-character atom *)
+Lemma guard_one dot first (P : ch -> Prop) (a : re) rs n :
+  (forall s rest, M a s rest <-> exists x, s = [x] /\ P x) ->
+  (Mseq ((if first && negb dot then [NLook (SetOf [46])] else []) ++ a :: rs) n [] <->
+   exists x n', n = x :: n' /\ P x /\ (first = true -> dot = false -> x <> 46) /\ Mseq rs n' []).
+Proof.
+  intros Ha. destruct (first && negb dot) eqn:G; cbn [app Mseq].
+  - apply andb_true_iff in G. destruct G as [-> G]. apply negb_true_iff in G. subst dot. split.
+    + intros [s1 [s2 [E [HG [s3 [s4 [E2 [H1 H2]]]]]]]]. cbn [M] in HG. destruct HG as [-> HN]. apply Ha in H1. destruct H1 as [x [-> Px]].
+      cbn [app] in *. subst. exists x, s4. split; [reflexivity|]. split; [exact Px|]. split; [|exact H2].
+      intros _ _ ->. apply (proj1 (nlook_dot _) HN s4). rewrite app_nil_r. reflexivity.
+    + intros [x [n' [E [Px [Hx H]]]]]. subst. exists [], (x :: n'). split; [reflexivity|]. split.
+      * cbn [M]. split; [reflexivity|]. apply nlook_dot. intros y Ey. rewrite app_nil_r in Ey. inversion Ey; subst. apply Hx; reflexivity.
+      * exists [x], n'. split; [reflexivity|]. split; [apply Ha; exists x; split; [reflexivity|exact Px]|exact H].
+  - split.
+    + intros [s1 [s2 [E [H1 H2]]]]. apply Ha in H1. destruct H1 as [x [-> Px]]. subst. exists x, s2. split; [reflexivity|]. split; [exact Px|].
+      split; [|exact H2]. intros -> ->. discriminate.
+    + intros [x [n' [E [Px [_ H]]]]]. subst. exists [x], n'. split; [reflexivity|]. split; [apply Ha; exists x; split; [reflexivity|exact Px]|exact H].
+Qed.
+
 Theorem emit_sound_complete dot : forall ts first n,
   Mseq (emit dot first ts) n [] <-> Den dot first ts n.
 Proof.
   induction ts as [|t ts IH]; intros first n.
   - cbn. reflexivity.
-  - destruct t as [c|c| |].
+  - destruct t as [c|c| | |neg l].
     + cbn [emit Mseq Den]. split.
       * intros [s1 [s2 [E [H1 H2]]]]. apply lit_re_M in H1. subst. exists s2. split; [reflexivity|apply IH; exact H2].
       * intros [n' [E H]]. subst. exists [c], n'. split; [reflexivity|]. split; [apply lit_re_M; reflexivity|apply IH; exact H].
@@ -185,6 +218,10 @@ Proof.
       * cbn [Mseq]. split.
         -- intros H. apply Core in H. destruct H as [s [n' [E H]]]. exists s, n'. split; [exact E|]. split; [discriminate|]. split; [discriminate|exact H].
         -- intros [s [n' [E [_ [_ H]]]]]. apply Core. exists s, n'. split; [exact E|exact H].
+    + cbn [emit Den].
+      rewrite (guard_one dot first (fun x => if neg then ~ In x l else In x l) (if neg then NSetOf l else SetOf l) (emit dot false ts) n).
+      * split; intros [x [n' [E [A [B C]]]]]; exists x, n'; (split; [exact E|]); (split; [exact A|]); (split; [exact B|]); apply IH; exact C.
+      * intros s rest. destruct neg; cbn [M]; reflexivity.
 Qed.
 
 
@@ -192,11 +229,12 @@ Qed.
 Lemma flat_leading_dot : forall ts n',
   Den false true ts (46%N :: n') -> exists c r, (ts = TLit c :: r \/ ts = TEsc c :: r) /\ c = 46%N.
 Proof.
-  intros ts n'. destruct ts as [|t r]; cbn [Den]; [discriminate|]. destruct t as [c|c| |].
+  intros ts n'. destruct ts as [|t r]; cbn [Den]; [discriminate|]. destruct t as [c|c| | |neg l].
   - intros [s0 [E _]]. inversion E; subst. exists 46%N, r. split; [left; reflexivity|reflexivity].
   - intros [s0 [E _]]. inversion E; subst. exists 46%N, r. split; [right; reflexivity|reflexivity].
   - intros [x [s0 [E [Hf _]]]]. inversion E; subst. exfalso. apply (Hf eq_refl eq_refl). reflexivity.
   - intros [a [s0 [E [_ [Hd _]]]]]. exfalso. apply (Hd eq_refl eq_refl n'). reflexivity.
+  - intros [x [s0 [E [_ [Hf _]]]]]. inversion E; subst. exfalso. apply (Hf eq_refl eq_refl). reflexivity.
 Qed.
 
 (* ---- (1) the parser model prints exactly [emit] ---- *)
@@ -224,6 +262,94 @@ Proof. unfold jrev. cbn [rev map]. rewrite map_app, concat_app. cbn. rewrite app
 Lemma skip_stars_nostar r i : (match r with c :: _ => negb (N.eqb c 42) | [] => true end) = true ->
   skip_stars r i = {| idx := i; rest := r |}.
 Proof. destruct r as [|c r]; intros H; [reflexivity|]. cbn. unfold cSTAR. apply negb_true_iff in H. rewrite H. reflexivity. Qed.
+
+(* ---- bracket expressions over plain members: what the `_sequence` model returns ---- *)
+Lemma setplain_facts c : setplain c = true ->
+  N.eqb c cRB = false /\ N.eqb c cMINUS = false /\ N.eqb c cLB = false /\ N.eqb c cBS = false /\ N.eqb c cSL = false /\
+  N.eqb c cEX = false /\ N.eqb c cHAT = false /\ ch_in c set_operators = false.
+Proof.
+  unfold setplain, ch_in. cbn [existsb]. rewrite !orb_false_r. intros H. apply negb_true_iff in H.
+  repeat (apply orb_false_iff in H; destruct H as [? H]).
+  unfold cRB, cMINUS, cLB, cBS, cSL, cEX, cHAT, set_operators, Sets.SET_OPERATORS. cbn [existsb].
+  repeat split; try assumption. rewrite !orb_false_r.
+  repeat (apply orb_false_iff; split); assumption.
+Qed.
+
+Section BrText.
+  Variable cf : cfg.
+  Hypothesis Hpath : c_pathname cf = false.
+
+  (* the `while c != ']'` loop over plain members: they are appended one by one *)
+  Lemma seq_loop_plain : forall l fuel st c i r result eh,
+    forallb setplain (c :: l) = true -> (length l + 1 < fuel)%nat ->
+    seq_loop fuel cf st c {| idx := i; rest := l ++ 93%N :: r |} result 0 eh false false =
+    Ok (rev (map (fun x => [x]) (c :: l)) ++ result, {| idx := i + Z.of_nat (length l) + 1; rest := r |}, false).
+  Proof.
+    induction l as [|d l IH]; intros fuel st c i r result eh Hp Hf.
+    - destruct fuel as [|[|f]]; try (cbn in Hf; lia).
+      cbn [forallb] in Hp. apply andb_true_iff in Hp. destruct Hp as [Hc _].
+      destruct (setplain_facts c Hc) as [A [B [C [D [E [_ [_ F]]]]]]].
+      cbn [seq_loop]. rewrite A, B, C, D, E, F. cbn [andb negb Z.eqb next rest idx app].
+      cbn [seq_loop]. change (N.eqb 93%N cRB) with true. cbv iota. cbn [length Z.of_nat map rev app]. replace (i + 0 + 1) with (i + 1) by lia. reflexivity.
+    - destruct fuel as [|f]; [cbn in Hf; lia|].
+      pose proof Hp as Hp0. cbn [forallb] in Hp. apply andb_true_iff in Hp. destruct Hp as [Hc Hl].
+      destruct (setplain_facts c Hc) as [A [B [C [D [E [_ [_ F]]]]]]].
+      cbn [seq_loop]. rewrite A, B, C, D, E, F. cbn [andb negb Z.eqb next rest idx app].
+      pose proof (IH f st d (i + 1) r ([c] :: result) eh Hl ltac:(cbn [length] in Hf; lia)) as Q. eapply eq_trans; [exact Q|].
+      cbn [map rev length]. rewrite <- !app_assoc. cbn [app]. rewrite Nat2Z.inj_succ.
+      replace (i + 1 + Z.of_nat (length l) + 1) with (i + Z.succ (Z.of_nat (length l)) + 1) by lia. reflexivity.
+  Qed.
+
+  Definition br_text (neg : bool) (l : list ch) : str := S_ "[" ++ (if neg then S_ "^" else []) ++ l ++ S_ "]".
+
+  Lemma concat_singletons (l : list ch) : concat (map (fun x => [x]) l) = l.
+  Proof. induction l as [|x l IH]; [reflexivity|]. cbn. rewrite IH. reflexivity. Qed.
+
+  Lemma concat_rev_build (l : list ch) (pre : list str) :
+    concat (rev ([cRB] :: rev (map (fun x => [x]) l) ++ pre)) = concat (rev pre) ++ l ++ [cRB].
+  Proof.
+    cbn [rev]. rewrite rev_app_distr, rev_involutive. rewrite !concat_app. rewrite concat_singletons. cbn [concat].
+    rewrite app_nil_r, <- app_assoc. reflexivity.
+  Qed.
+
+  Lemma sequence_plain st i (neg : bool) (l : list ch) r :
+    forallb setplain l = true -> l <> [] ->
+    sequence cf st {| idx := i; rest := (if neg then [33%N] else []) ++ l ++ 93%N :: r |} =
+    Ok ((if after_start st then (if negb (c_dot cf) then Frag.u_NO_DOT else []) else []) ++ br_text neg l,
+        (if after_start st then reset_dir_track st else st),
+        {| idx := i + (if neg then 1 else 0) + Z.of_nat (length l) + 1; rest := r |}).
+  Proof.
+    intros Hp Hne. destruct l as [|c l]; [contradiction|].
+    pose proof Hp as Hp0. cbn [forallb] in Hp. apply andb_true_iff in Hp. destruct Hp as [Hc Hl].
+    destruct (setplain_facts c Hc) as [A [B [C [D [E [F [G _]]]]]]].
+    unfold sequence. destruct neg; cbn [app next rest idx].
+    - change (N.eqb 33%N cEX) with true. cbn [orb]. cbn [next rest idx].
+      rewrite C, B, A. cbn [orb rest].
+      pose proof (seq_loop_plain l (S (length (l ++ 93%N :: r))) st c (i + 1 + 1) r [[cHAT]; [cLB]] (-1) Hp0
+                   ltac:(rewrite app_length; cbn [length]; lia)) as Q.
+      match goal with |- context [seq_loop ?a ?b ?c0 ?d ?e ?f0 ?g ?h ?i0 ?j] =>
+        replace (seq_loop a b c0 d e f0 g h i0 j) with
+          (@Ok (list str * iter * bool) (rev (map (fun x => [x]) (c :: l)) ++ [[cHAT]; [cLB]], {| idx := i + 1 + 1 + Z.of_nat (length l) + 1; rest := r |}, false))
+          by (symmetry; exact Q) end.
+      rewrite Hpath. cbn [orb]. rewrite concat_rev_build.
+      unfold restrict_sequence. rewrite Hpath.
+      destruct (after_start st); cbn [andb]; [destruct (c_dot cf); cbn [negb]|];
+        match goal with |- Ok (_, _, {| idx := ?x; rest := _ |}) = Ok (_, _, {| idx := ?y; rest := _ |}) =>
+          replace x with y by (cbn [length]; rewrite ?Nat2Z.inj_succ; lia); reflexivity end.
+    - rewrite F, G. cbn [orb]. rewrite C, B, A. cbn [orb rest].
+      pose proof (seq_loop_plain l (S (length (l ++ 93%N :: r))) st c (i + 1) r [[cLB]] (-1) Hp0
+                   ltac:(rewrite app_length; cbn [length]; lia)) as Q.
+      match goal with |- context [seq_loop ?a ?b ?c0 ?d ?e ?f0 ?g ?h ?i0 ?j] =>
+        replace (seq_loop a b c0 d e f0 g h i0 j) with
+          (@Ok (list str * iter * bool) (rev (map (fun x => [x]) (c :: l)) ++ [[cLB]], {| idx := i + 1 + Z.of_nat (length l) + 1; rest := r |}, false))
+          by (symmetry; exact Q) end.
+      rewrite Hpath. cbn [orb]. rewrite concat_rev_build.
+      unfold restrict_sequence. rewrite Hpath.
+      destruct (after_start st); cbn [andb]; [destruct (c_dot cf); cbn [negb]|];
+        match goal with |- Ok (_, _, {| idx := ?x; rest := _ |}) = Ok (_, _, {| idx := ?y; rest := _ |}) =>
+          replace x with y by (cbn [length]; rewrite ?Nat2Z.inj_succ; lia); reflexivity end.
+  Qed.
+End BrText.
 
 Section Flat.
   Variable cf : cfg.
@@ -286,10 +412,29 @@ Section Flat.
     rewrite handle_star_flat by assumption. reflexivity.
   Qed.
 
+  Lemma step_br f st i (neg : bool) (l : list ch) r cur :
+    forallb setplain l = true -> l <> [] ->
+    root_loop (S f) cf st {| idx := i; rest := 91%N :: (if neg then [33%N] else []) ++ l ++ 93%N :: r |} cur =
+    root_loop f cf (update_dir_state (if after_start st then reset_dir_track st else st))
+              {| idx := i + 1 + (if neg then 1 else 0) + Z.of_nat (length l) + 1; rest := r |}
+              (T ((if after_start st then (if negb (c_dot cf) then Frag.u_NO_DOT else []) else []) ++ br_text neg l) :: cur).
+  Proof.
+    intros Hp Hne. cbn [root_loop next rest idx]. rewrite Hext. cbn [andb].
+    change (N.eqb 91%N cDOT) with false. change (N.eqb 91%N cSTAR) with false. change (N.eqb 91%N cQM) with false.
+    change (N.eqb 91%N cSL) with false. change (N.eqb 91%N cBS) with false. change (N.eqb 91%N cLB) with true. cbv iota.
+    rewrite (sequence_plain cf Hpath st (i + 1) neg l r Hp Hne). reflexivity.
+  Qed.
+
+  Lemma inv2_after_br first st : inv2 first st -> inv2 false (update_dir_state (if after_start st then reset_dir_track st else st)).
+  Proof.
+    intros I2. destruct (after_start st) eqn:E; [eapply inv2_update_reset; exact I2|].
+    destruct I2 as [A [B [C D]]]. unfold update_dir_state. rewrite A, E. cbn. repeat split; auto.
+  Qed.
+
   Lemma unparse_head_not_star t ts : wf (t :: ts) = true -> t <> TStar ->
     (match unparse (t :: ts) with c :: _ => negb (N.eqb c 42) | [] => true end) = true.
   Proof.
-    intros W Ht. destruct t as [c|c| |]; cbn in *; try reflexivity; [|contradiction].
+    intros W Ht. destruct t as [c|c| | |neg l]; cbn in *; try reflexivity; [|contradiction].
     apply andb_true_iff in W. destruct W as [W _]. unfold plain, ch_in in W. cbn [existsb] in W.
     apply negb_true_iff in W. apply orb_false_iff in W. destruct W as [W _]. rewrite W. reflexivity.
   Qed.
@@ -304,7 +449,7 @@ Section Flat.
       eapply inv2_inv; exact I2.
     - destruct fuel as [|f]; [lia|].
       change (unparse (t :: ts)) with (unparse1 t ++ unparse ts) in *. rewrite app_length in Hf.
-      destruct t as [c|c| |].
+      destruct t as [c|c| | |neg l].
       + cbn [unparse1 app length] in *. cbn [wf] in W. apply andb_true_iff in W. destruct W as [Wc W].
         rewrite step_lit by exact Wc.
         destruct (IH f (update_dir_state st) (i + 1) (T (print1 (lit_re c)) :: cur) false W ltac:(lia) (inv2_update _ _ I2))
@@ -333,7 +478,7 @@ Section Flat.
       + cbn [unparse1 app length] in *.
         assert (W' : wf ts = true /\ (match unparse ts with c :: _ => negb (N.eqb c 42) | [] => true end) = true).
         { cbn [wf] in W. destruct ts as [|t2 ts2]; [split; reflexivity|].
-          destruct t2 as [c2|c2| |]; try discriminate; (split; [exact W|apply unparse_head_not_star; [exact W|discriminate]]). }
+          destruct t2 as [c2|c2| | |neg2 l2]; try discriminate; (split; [exact W|apply unparse_head_not_star; [exact W|discriminate]]). }
         destruct W' as [W' Hh].
         rewrite step_star; [|apply I2|exact Hh].
         destruct (IH f (update_dir_state (reset_dir_track st)) (i + 1) (T (star_text st) :: cur)
@@ -342,17 +487,32 @@ Section Flat.
         exists st', cur'. split; [exact E|]. split; [|exact K].
         rewrite J, jrev_cons. destruct I2 as [_ [_ [_ Ha]]]. unfold star_text. rewrite Ha. cbn [emit print].
         destruct first; cbn [andb]; destruct (c_dot cf); cbn [negb app flat_map print1]; rewrite <- ?app_assoc; reflexivity.
+      + cbn [wf] in W. apply andb_true_iff in W. destruct W as [W W']. apply andb_true_iff in W. destruct W as [Wl Wn].
+        assert (Hne : l <> []) by (destruct l; [discriminate|discriminate]).
+        cbn [unparse1] in *. rewrite <- !app_assoc. cbn [app].
+        pose proof (step_br f st i neg l (unparse ts) cur Wl Hne) as Q.
+        assert (HL : (length l + 2 <= length ([91%N] ++ (if neg then [33%N] else []) ++ l ++ [93%N]))%nat).
+        { rewrite !app_length. cbn [length]. lia. }
+        destruct (IH f (update_dir_state (if after_start st then reset_dir_track st else st))
+                     (i + 1 + (if neg then 1 else 0) + Z.of_nat (length l) + 1)
+                     (T ((if after_start st then (if negb (c_dot cf) then Frag.u_NO_DOT else []) else []) ++ br_text neg l) :: cur)
+                     false W' ltac:(lia) (inv2_after_br _ _ I2))
+          as [st' [cur' [E [J K]]]].
+        exists st', cur'. split; [eapply eq_trans; [exact Q|exact E]|]. split; [|exact K].
+        rewrite J, jrev_cons. destruct I2 as [_ [_ [_ Ha]]]. rewrite Ha. cbn [emit print].
+        destruct first; cbn [andb]; destruct (c_dot cf); destruct neg; cbn [negb app flat_map print1]; rewrite <- ?app_assoc; reflexivity.
   Qed.
 End Flat.
 
 Lemma unparse_not_lone_bs ts : wf ts = true -> str_eqb (unparse ts) [cBS] = false.
 Proof.
-  destruct ts as [|t ts]; [reflexivity|]. intros W. destruct t as [c|c| |]; cbn [unparse flat_map unparse1 app].
+  destruct ts as [|t ts]; [reflexivity|]. intros W. destruct t as [c|c| | |neg l]; cbn [unparse flat_map unparse1 app].
   - cbn [wf] in W. apply andb_true_iff in W. destruct W as [W _]. unfold plain, ch_in in W. cbn [existsb] in W.
     rewrite !orb_false_r in W. apply negb_true_iff in W. apply orb_false_iff in W. destruct W as [_ W].
     apply orb_false_iff in W. destruct W as [_ W]. apply orb_false_iff in W. destruct W as [_ W].
     unfold str_eqb, cBS. cbn. rewrite W. reflexivity.
   - unfold str_eqb. cbn. destruct (flat_map unparse1 ts); reflexivity.
+  - reflexivity.
   - reflexivity.
   - reflexivity.
 Qed.
@@ -433,3 +593,8 @@ Proof.
     exists (S_ "c"). split; [reflexivity|]. exists 99%N, []. split; [reflexivity|]. split; [discriminate|reflexivity].
   - intros [s [n' [E [_ [Hd _]]]]]. apply (Hd eq_refl eq_refl (S_ "b.c")). reflexivity.
 Qed.
+
+Example flat_bracket_example_text :
+  wcparse linux 0 false (unparse [TBr true [97%N; 98%N]; TStar; TBr false [120%N]; TLit 46%N]) =
+  inl (S_ "^(?s:(?![.])[^ab].*?[x]\.)$").
+Proof. vm_compute. reflexivity. Qed.
